@@ -52,9 +52,13 @@ def smooth(h, with_actuators=True, seed=0):
     t0, q0, u0 = sysm.t0, sysm.q0, sysm.u0
     ud, la_g, la_c = sysm.u_dot0, sysm.la_g0, sysm.la_c0
     M = np.asarray(sysm.M(t0, q0).toarray())
-    rhs = sysm.h(t0, q0, u0) + np.asarray(sysm.W_c(t0, q0).toarray()) @ la_c + np.asarray(sysm.W_g(t0, q0).toarray()) @ la_g
-    if sysm.nla_tau:
-        rhs = rhs + np.asarray(sysm.W_tau(t0, q0).toarray()) @ sysm.la_tau(t0, q0, u0)
+    # actuator forces taken from the actuators themselves (not through the system's own scatter, which is C14's subject)
+    f_tau = np.zeros(sysm.nu, dtype=object if h.sym else float)
+    for el in (rp.els[-2:] if with_actuators else []):
+        f_el = np.asarray(el.W_tau(t0, q0[el.qDOF])).reshape(len(el.uDOF), -1) @ np.atleast_1d(el.la_tau(t0, q0[el.qDOF], u0[el.uDOF]))
+        for i, ui in enumerate(el.uDOF):
+            f_tau[ui] = f_tau[ui] + f_el[i]
+    rhs = sysm.h(t0, q0, u0) + np.asarray(sysm.W_c(t0, q0).toarray()) @ la_c + np.asarray(sysm.W_g(t0, q0).toarray()) @ la_g + f_tau
     if h.sym:
         rec = h.lu_log()[0]
         res = rec["A"] @ rec["x"] - rec["b"]
@@ -62,7 +66,7 @@ def smooth(h, with_actuators=True, seed=0):
         h.eq("returned accelerations / multipliers are the linear solve's solution", np.concatenate([ud, la_g]), rec["x"][:nu + sysm.nla_g])
         h.eq("momentum rows of the initial linear system = M u_dot - h - W_c la_c - W_tau la_tau - W_g la_g", res[:nu], M @ rec["x"][:nu] - (
             sysm.h(t0, q0, u0) + np.asarray(sysm.W_c(t0, q0).toarray()) @ la_c
-            + (np.asarray(sysm.W_tau(t0, q0).toarray()) @ sysm.la_tau(t0, q0, u0) if sysm.nla_tau else 0.0)
+            + f_tau
             + np.asarray(sysm.W_g(t0, q0).toarray()) @ rec["x"][nu:nu + sysm.nla_g]))
         h.eq("constraint rows of the initial linear system = g_ddot(t0, q0, u0, u_dot)", res[nu:nu + sysm.nla_g],
              np.atleast_1d(sysm.g_ddot(t0, q0, u0, rec["x"][:nu])))
@@ -137,6 +141,45 @@ def guard_contact(h, seed=0):
         h.le("initial friction force within the Coulomb cone", laF @ laF, (0.3 * laN[0]) * (0.3 * laN[0]) * (1 + 1e-9) + 1e-18)
 
 
+def two_contacts(h, seed=0):
+    """acceleration-level Coulomb condition of a STICKING contact (symbolic tangential load below the friction limit) next to a SLIDING one:
+    the sticking mass does not accelerate and its friction force balances the load"""
+    from cardillo import System
+    from cardillo.discrete import PointMass
+    from cardillo.forces import Force
+    from cardillo.contacts import Sphere2Plane
+    from cardillo.solver import SolverOptions
+    m, g, mu = 2.0, 10.0, 0.5
+    f = h.real("pull")
+    h.assume(f > 0.5, "pull > 0.5")
+    h.assume(f < 0.9 * mu * m * g, "pull below the friction limit")
+    sysm = System()
+    A = PointMass(m, q0=np.array([0.0, 0.0, 0.0]), u0=np.zeros(3), name="A")
+    B = PointMass(m, q0=np.array([1.0, 0.5, 0.0]), u0=np.array([1.0, 0.0, 0.0]), name="B")
+    cA = Sphere2Plane(sysm.origin, A, mu=mu, r=0, e_N=0, e_F=0, name="cA")
+    cB = Sphere2Plane(sysm.origin, B, mu=mu, r=0, e_N=0, e_F=0, name="cB")
+    sysm.add(A, B, Force(h.arr([f, 0.0, -m * g]), A, name="fA"), Force(np.array([0.0, 0.0, -m * g]), B, name="fB"), cA, cB)
+    if h.sym:
+        from symx import shims
+        shims.LU_MODE[0] = "cramer"
+    raised = None
+    with h.capture():
+        try:
+            sysm.assemble(options=SolverOptions(prox_scaling=1.0))
+        except (AssertionError, RuntimeError) as e:
+            raised = str(e)
+    h.holds("consistent initial conditions are found (two persistent contacts)", raised is None, info=str(raised))
+    if raised is not None:
+        return
+    ud, laN, laF = sysm.u_dot0, sysm.la_N0, sysm.la_F0
+    tol = None if h.sym else 1e-6
+    h.eq("sticking contact: no acceleration", ud[A.uDOF], np.zeros(3), tol=(1e-6 if h.sym else 1e-6))
+    h.eq("sticking contact: friction balances the tangential load", laF[cA.la_FDOF], h.arr([-f, 0.0]), tol=1e-6)
+    h.eq("normal forces carry the weights", laN, np.array([m * g, m * g]), tol=1e-6)
+    h.eq("sliding contact: friction opposes the slip with magnitude mu la_N", laF[cB.la_FDOF], np.array([-mu * m * g, 0.0]), tol=1e-5)
+    h.eq("sliding contact: deceleration mu g", ud[B.uDOF], np.array([-mu * g, 0.0, 0.0]), tol=1e-5)
+
+
 def contact_gap(h, sub="RB", seed=0):
     """the acceleration-level contact quantities consistent_initial_conditions solves with (zeta_N = System.g_N_ddot(t0, q0, u0, 0),
     zeta_F = System.gamma_F_dot(t0, q0, u0, 0), W_N, W_F) are the time derivatives of the velocity-level gaps, for a MOVING plane"""
@@ -162,6 +205,7 @@ def cases(tier, seed):
         Case("guard/position", guard_bilateral, dict(level="position", seed=seed), timeout=T, max_paths=128, sentinel=False),
         Case("guard/velocity", guard_bilateral, dict(level="velocity", seed=seed), timeout=T, max_paths=128, sentinel=False),
         Case("guard/contact", guard_contact, dict(seed=seed), timeout=T, max_paths=128, sentinel=False),
+        Case("contact/stick_next_to_slip", two_contacts, dict(seed=seed), timeout=T, hard=T * 10, max_paths=64, sentinel=False),
         Case("contact/acceleration_gap/RB", contact_gap, dict(sub="RB", seed=seed), timeout=T, hard=T * 10),
         Case("contact/acceleration_gap/PM", contact_gap, dict(sub="PM", seed=seed), timeout=T, hard=T * 10),
     ]
